@@ -3,7 +3,7 @@ CONSTANTS
   DEVS <- c_CodeDevs
   MAXOPS = 3
   BASES = {"B0", "B1"}
-  CHAINS = {"main", "test"}
+  CHAINS = {"main", "main2", "test"}
   REJBUDGET = 1
 INVARIANTS EmitAtDepth
 CHECK_DEADLOCK FALSE
